@@ -249,7 +249,9 @@ class MultipartDecoder:
         for line in data.splitlines():
             line = line.strip()
             if line != b"":
-                name, value = safe_decode(line, self.charset).split(":", 1)
+                name, colon, value = safe_decode(line, self.charset).partition(":")
+                if not colon:
+                    raise MalformedMultipart("Invalid part header line")
                 headers.append((name.strip(), value.strip()))
         return Headers(headers)
 
